@@ -255,7 +255,7 @@ PROPS["C03"]["e2"] += [E("main", "p_main", "lemma_main")]
 PROPS["C04"]["e2"] += [E("tree_walker", "p_walker", "lemma_tree_walker"), E("main", "p_main", "lemma_main"), E("driver_copy", "p_drivers", "lemma_driver_copy")]
 PROPS["C12"]["e2"] += [E("tree_walker", "p_walker", "lemma_tree_walker"), E("main", "p_main", "lemma_main"), E("driver_copy", "p_drivers", "lemma_driver_copy")]
 PROPS["C14"]["e2"] += [E("tree_walker", "p_walker", "lemma_tree_walker")]
-PROPS["C20"]["e2"] += [E("driver_copy", "p_drivers", "lemma_driver_copy")]
+PROPS["C20"]["e2"] += [E("driver_copy", "p_drivers", "lemma_driver_copy"), E("fiemap_call", "p_libfs", "lemma_fiemap_call")]
 for _p in ("C01", "C02"):
     PROPS[_p]["e2"] += [E("driver_copy", "p_drivers", "lemma_driver_copy")]
 for _p in ("C07", "C16"):
